@@ -110,17 +110,58 @@ def rule_X1(F, R):
 
 
 def rule_X2(F, R):
-    R.begin("X2", "AAD layout: byte 0 = TASK_APP_ID, bytes 1.. = the 16 bytes of the version id")
-    b, paths = _paths(F, R, "X2", ENC + "::Cryptor::make_aad")
+    R.begin("X2", "AAD: derives from TASK_APP_ID and the bytes of the version id the data belongs to and from nothing else (decided for any layout code); where the layout code is of the recognised index-write shape: byte 0 = TASK_APP_ID, bytes 1.. = the 16 id bytes, length AAD_LEN")
+    b = F.bodies.get(ENC + "::Cryptor::make_aad")
+    if b is None:
+        R.missing("X2", ENC + "::Cryptor::make_aad")
+        return
+    fl = flow_of(b)
+    cc = cfg_of(b)
+    w = where(b)
+    # shape-independent core: the body uses TASK_APP_ID, takes as_bytes() of the version id
+    # parameter, and of no other id
+    uses_app = False
+    for i in sorted(cc.reach):
+        for st in cc.blocks[i]["s"]:
+            if st["k"] == "assign":
+                for key in ("o", "a", "b"):
+                    o = st["r"].get(key)
+                    if isinstance(o, dict) and "k" in o and o["k"].get("named") == ENC + "::TASK_APP_ID":
+                        uses_app = True
+                for o in st["r"].get("ops", []):
+                    if "k" in o and o["k"].get("named") == ENC + "::TASK_APP_ID":
+                        uses_app = True
+    asb = [(i, t) for i, t in cc.calls() if any(n.endswith("::as_bytes") for n in call_names(t))]
+    from_vid = []
+    foreign = []
+    for (i, t) in asb:
+        sl = fl.slice_operand(t["args"][0])
+        names = {(b["locals"][r[1]].get("name") or "") for r in sl.roots if r[0] == "param"}
+        if "version_id" in names and not sl.root_calls():
+            from_vid.append(i)
+        else:
+            foreign.append(sorted(n for (_bb, n) in sl.root_calls()) or sorted(names))
+    if not uses_app:
+        R.violation("X2", b["path"], "app-id-byte", "the AAD is built without TASK_APP_ID", w)
+        return
+    if not from_vid:
+        R.violation("X2", b["path"], "version-id-bytes", "the AAD is built without the bytes of the version id the data belongs to (%s)" % (foreign[:1] or "no as_bytes()"), w)
+        return
+    if foreign:
+        R.violation("X2", b["path"], "aad-foreign-input", "the AAD also takes id bytes from %s" % foreign[0], w)
+        return
+    R.ok("X2", "aad derives from TASK_APP_ID and version_id.as_bytes() only", w)
+    # recognised layout
+    _b, paths = _paths(F, R, "X2", ENC + "::Cryptor::make_aad")
     for p in paths:
         if p.end[0] != "return":
             continue
-        w = where(b)
         cps = [e for e in p.events if e["callee"].endswith("copy_from_slice")]
-        ok0 = _has(p.ret, lambda v: v[0] == "O" and (("idx", "0_usize"), ("K", ENC + "::TASK_APP_ID")) in v[2])
-        if not ok0:
-            R.violation("X2", b["path"], "app-id-byte", "AAD byte 0 is not TASK_APP_ID: %s" % show(p.ret)[:200], w)
+        idx0 = _has(p.ret, lambda v: v[0] == "O" and any(k == ("idx", "0_usize") for (k, _x) in v[2]))
+        if not idx0:
+            R.info("X2", "layout code is not of the index-write shape; exact byte layout not decided on this tree")
             continue
+        ok0 = _has(p.ret, lambda v: v[0] == "O" and (("idx", "0_usize"), ("K", ENC + "::TASK_APP_ID")) in v[2])
         good = False
         for e in cps:
             dst, src = e["args"][0], e["args"][1]
@@ -128,9 +169,12 @@ def rule_X2(F, R):
             srcok = src[0] == "C" and src[2].endswith("::as_bytes") and src[3] == (("P", "version_id"),)
             if from1 and srcok:
                 good = True
-        if not good:
+        alen = re.sub(r"_[ui]\w+$", "", str(_const(F, ENC + "::AAD_LEN")))
+        if not ok0:
+            R.violation("X2", b["path"], "app-id-byte", "AAD byte 0 is not TASK_APP_ID: %s" % show(p.ret)[:200], w)
+        elif not good:
             R.violation("X2", b["path"], "version-id-bytes", "AAD bytes 1.. are not the bytes of the version id the data belongs to", w)
-        elif not _has(p.ret, lambda v: v[0] == "Rep" and (v[2].endswith("AAD_LEN") or v[2] == re.sub(r"_[ui]\w+$", "", str(_const(F, ENC + "::AAD_LEN"))))):
+        elif not _has(p.ret, lambda v: v[0] == "Rep" and (v[2].endswith("AAD_LEN") or v[2] == alen)):
             R.violation("X2", b["path"], "aad-length", "the AAD buffer is not AAD_LEN bytes", w)
         else:
             R.ok("X2", "aad = [TASK_APP_ID] ++ version_id.as_bytes()", w)
